@@ -810,26 +810,30 @@ def concatenate(arrs, axis=0) -> NdArr:
 
 def transpose(a: NdArr, axes) -> NdArr:
     nd = a.ndim
+    if a.trail:
+        raise AnalysisError("transpose of an array with trailing explicit dims")
     if axes is None:
         axes = tuple(reversed(range(nd)))
     axes = tuple(int(_as_int(x)) % nd for x in axes)
-    ne = len(a.shape)
-    if a.sp:
-        # allowed: permutations keeping spatial dims as a trailing block in order, or moving the
-        # whole spatial block to the front (handled by treating it as virtual)
-        exp_axes = [x for x in axes if x < ne]
-        sp_axes = [x for x in axes if x >= ne]
-        if sp_axes != list(range(ne, nd)):
+    ne, nsp = len(a.shape), len(a.sp)
+    sp_first_in = getattr(a, "sp_first", False)
+    if nsp:
+        # positions of the spatial block in the *input* axis numbering
+        sp_in = list(range(0, nsp)) if sp_first_in else list(range(ne, nd))
+        exp_in = [x for x in range(nd) if x not in sp_in]
+        sp_axes = [x for x in axes if x in sp_in]
+        if sp_axes != sp_in:
             raise AnalysisError(f"transpose permuting spatial dims: {axes}")
-        if axes[-len(sp_axes) :] == tuple(sp_axes):
-            pass  # spatial trailing
-        elif axes[: len(sp_axes)] == tuple(sp_axes):
-            pass  # spatial leading: keep them implicit (elements are per-position anyway)
+        if list(axes[-nsp:]) == sp_in:
+            sp_first_out = False
+        elif list(axes[:nsp]) == sp_in:
+            sp_first_out = True
         else:
             raise AnalysisError(f"transpose interleaving spatial dims: {axes}")
-        axes_e = tuple(exp_axes)
+        axes_e = tuple(exp_in.index(x) for x in axes if x in exp_in)
     else:
         axes_e = axes
+        sp_first_out = False
     shape = tuple(a.shape[x] for x in axes_e)
     data = []
     for ix in itertools.product(*[range(s) for s in shape]):
@@ -837,7 +841,10 @@ def transpose(a: NdArr, axes) -> NdArr:
         for k, x in enumerate(axes_e):
             src[x] = ix[k]
         data.append(a.data[_flat_index(a.shape, src)])
-    return NdArr(shape, data, a.sp)
+    out = NdArr(shape, data, a.sp)
+    if sp_first_out:
+        out.sp_first = True
+    return out
 
 
 def reshape(a: NdArr, new_shape) -> NdArr:
